@@ -390,7 +390,7 @@ def sub(x, y, out=None, out_like=None, sizing='optimal', method='raw', **kwargs)
         n_frac_sum = max(n_frac, x.n_frac, y.n_frac)    # the difference is formed exactly; fraction bits the destination does not have are dropped afterwards
         raw_cast = _raw_cast(x, y, max(x.n_word + n_frac_sum - x.n_frac, y.n_word + n_frac_sum - y.n_frac) + 1)
         x_raw, y_raw = raw_cast(x.val), raw_cast(y.val)
-        if not x.signed and not y.signed and np.asarray(x_raw).dtype.kind == 'u':
+        if not x.signed and not y.signed and np.asarray(x_raw).dtype.kind == 'u' and np.asarray(y_raw).dtype.kind in 'ui':
             # the difference of two unsigned codes can be negative: it is computed with signed integers
             # (the aligned codes fit in 63 bits here, wider ones were already turned into python integers)
             x_raw, y_raw = np.asarray(x_raw).astype(np.int64), np.asarray(y_raw).astype(np.int64)
